@@ -460,11 +460,39 @@ pub fn run_case(case: &C13Case) -> CaseReport {
     rep
 }
 
+/// The forkprobe family plus iterator scenarios under the executor: deliveries keep arriving
+/// while an instance is closed and dropped, and no wake-up may target a released descriptor.
+#[derive(Clone, Debug, Serialize, Deserialize)]
+pub enum C13Any {
+    Probe(C13Case),
+    Iter(crate::iter::IterCase),
+}
+
+fn run_any(c: &C13Any) -> CaseReport {
+    match c {
+        C13Any::Probe(c) => run_case(c),
+        C13Any::Iter(c) => {
+            let mut r = crate::iter::run_case(c);
+            let nt = !c.late.is_empty();
+            r.nontrivial_by.push(("C13".into(), nt));
+            r
+        }
+    }
+}
+
 fn worker(def: &PropDef, args: &WorkerArgs) -> WorkerReport {
-    generic_worker(def, args, strategy(), &run_case)
+    let strat = prop_oneof![
+        3 => strategy().prop_map(C13Any::Probe),
+        2 => crate::iter::strategy(true).prop_map(C13Any::Iter),
+    ]
+    .boxed();
+    generic_worker(def, args, strat, &run_any)
 }
 
 fn replay(v: &Value) -> CaseReport {
+    if let Ok(c) = serde_json::from_value::<C13Any>(v.clone()) {
+        return run_any(&c);
+    }
     let case: C13Case = serde_json::from_value(v.clone()).expect("case");
     run_case(&case)
 }
@@ -472,7 +500,7 @@ fn replay(v: &Value) -> CaseReport {
 pub static C13: PropDef = PropDef {
     id: "C13",
     prefixes: &["C13/"],
-    rule: "forkprobe: descriptor kind {pipe, unix stream, unix dgram, seqpacket} x {register, register_raw} x fill {empty, k bytes, full to EAGAIN} x 1-3 bursts of 1..5000 real raises x optional second self-pipe on the same signal x optional rejected registration first {forbidden signal, invalid signal, closed descriptor, -1} x reuse probe (the freed descriptor number is re-opened by the application and must stay untouched). Capacity is measured on a twin descriptor. Oracle: bytes read back are 'X', never more than deliveries, exactly one per delivery while there is room (<= cap/2), at least one byte visible if any delivery happened; bursts on a full descriptor complete (watchdog + /proc syscall evidence); pipes get O_NONBLOCK; descriptor closed after unregister / rejection and never touched afterwards. Non-trivial = pre-filled or full descriptor, burst beyond capacity, rejected registration or reuse probe; distinct = the case value",
+    rule: "forkprobe: descriptor kind {pipe, unix stream, unix dgram, seqpacket} x {register, register_raw} x fill {empty, k bytes, full to EAGAIN} x 1-3 bursts of 1..5000 real raises x optional second self-pipe on the same signal x optional rejected registration first {forbidden signal, invalid signal, closed descriptor, -1} x reuse probe (the freed descriptor number is re-opened by the application and must stay untouched). Capacity is measured on a twin descriptor. Oracle: bytes read back are 'X', never more than deliveries, exactly one per delivery while there is room (<= cap/2), at least one byte visible if any delivery happened; bursts on a full descriptor complete (watchdog + /proc syscall evidence); pipes get O_NONBLOCK; descriptor closed after unregister / rejection and never touched afterwards. Non-trivial = pre-filled or full descriptor, burst beyond capacity, rejected registration or reuse probe; distinct = the case value. Second family: iterator scenarios under the schedule-owning executor (see C09) in which deliveries keep arriving while the instance is closed and dropped - every wake-up write must target a descriptor that is still open (non-trivial there = late deliveries present)",
     assumptions: &[
         "SIGPIPE is ignored in the probe (as in every Rust binary); the harness keeps read ends open",
         "one empty probe datagram per dgram/seqpacket registration is documented behaviour",
